@@ -437,7 +437,7 @@ std::string build_crash_case(const std::string &kind_in) {
   }
   p.kind = kind;
   p.nkeys = pick<int>({{3, 5}, {4, 10}, {2, 30}});
-  bool c04 = kind == "C04", c17 = kind == "C17";
+  bool c04 = kind == "C04", c17 = kind == "C17", c11 = kind == "C11";
   std::vector<std::string> lines;
   {
     std::string s = "config";
@@ -457,6 +457,28 @@ std::string build_crash_case(const std::string &kind_in) {
   int len = *rc::gen::withSize([&](int size) { return rc::gen::just(size); });
   int nops = 5 + (p.thorough ? len : (len * 35) / 100) + uni(0, 5);
   int sync_pct = pick<int>({{2, 10}, {3, 35}, {1, 80}});
+  if (c11) {
+    // small databases with tables on >= 2 levels, shadowed versions and tombstones across files, a live log
+    auto smallv = [&]() { return chance(10) ? std::string("x") : fmt("%c%d.%d", chance(50) ? 'r' : 'c', uni(0, 99999), pick<int>({{5, uni(1, 60)}, {2, uni(200, 900)}, {1, uni(1500, 4000)}})); };
+    int rounds = uni(2, 4);
+    for (int r = 0; r < rounds; r++) {
+      int n = uni(2, 8);
+      for (int i = 0; i < n; i++) {
+        int c = uni(0, 9);
+        if (c < 6) lines.push_back("put " + gen_key(p) + " " + smallv());
+        else if (c < 8) lines.push_back("del " + gen_key(p));
+        else lines.push_back("batch p:" + gen_key(p) + ":" + smallv() + " d:" + gen_key(p) + " p:" + gen_key(p) + ":" + smallv());
+      }
+      lines.push_back("flush");
+      if (r == 0) { lines.push_back("crange 0"); if (chance(50)) lines.push_back("crange 1"); }
+      if (chance(25)) lines.push_back("reopen");
+    }
+    int tail = uni(1, 5);
+    for (int i = 0; i < tail; i++) lines.push_back(chance(80) ? "put " + gen_key(p) + " " + smallv() : "del " + gen_key(p));
+    std::string text;
+    for (auto &l : lines) { text += l; text += "\n"; }
+    return text;
+  }
   for (int i = 0; i < nops; i++) {
     int c = uni(0, 99);
     std::string sync = chance(sync_pct) ? " sync=1" : "";
@@ -612,7 +634,7 @@ std::string build_codec_case(const std::string &kind_in) {
 std::string build_conc_case(const std::string &kind_in) {
   bool thorough = kind_in.find("-thorough") != std::string::npos;
   std::string kind = kind_in.substr(0, kind_in.find('-'));
-  bool c09 = kind == "C09", c04 = kind == "C04c";
+  bool c09 = kind == "C09", c04 = kind == "C04c", c10 = kind == "C10";
   int len = *rc::gen::withSize([&](int size) { return rc::gen::just(size); });
   std::vector<std::string> lines;
   // tiny programs for bounded-exhaustive schedule enumeration (shared keys, complete linearizability search)
@@ -647,6 +669,7 @@ std::string build_conc_case(const std::string &kind_in) {
   if (chance(25)) cfgl += " rsig=1";
   lines.push_back(cfgl);
   int T = std::min(thorough ? 8 : 5, 2 + len / 25 + uni(0, 1));
+  if (c10) T = uni(3, thorough ? 8 : 5);
   // setup: optionally bring the memtable close to its limit / create level-0 pressure
   int sc = uni(0, 99);
   if (sc < (c09 ? 55 : 30)) lines.push_back(fmt("fill 0 %d 1000", uni(50, 62)));
@@ -668,7 +691,7 @@ std::string build_conc_case(const std::string &kind_in) {
   // interleave threads' lines randomly (per-thread order is what matters)
   int total = 0;
   std::vector<int> left(T);
-  for (int t = 0; t < T; t++) { left[t] = uni(2, thorough ? 20 : 8); total += left[t]; }
+  for (int t = 0; t < T; t++) { left[t] = c10 ? uni(10, thorough ? 80 : 40) : uni(2, thorough ? 20 : 8); total += left[t]; }
   // C04/C08 small histories get a complete search: keep a share of them <= 14 operations
   while (total > 0) {
     int t = uni(0, T - 1);
@@ -700,7 +723,7 @@ std::string build_conc_case(const std::string &kind_in) {
     else if ((c -= wscan) < 0) lines.push_back(fmt("thread %d scan", t));
     else if ((c -= wflush) < 0) lines.push_back(fmt("thread %d flush", t));
     else if ((c -= wcr) < 0) lines.push_back(fmt("thread %d crange %d", t, uni(0, 1)));
-    else lines.push_back(fmt("thread %d %s", t, chance(50) ? "prop" : "approx"));
+    else lines.push_back(fmt("thread %d %s", t, (c10 && chance(25)) ? "backup" : chance(50) ? "prop" : "approx"));
   }
   std::string text;
   for (auto &l : lines) { text += l; text += "\n"; }
@@ -709,12 +732,12 @@ std::string build_conc_case(const std::string &kind_in) {
 
 bool is_conc_kind(const std::string &k) {
   std::string b = k.substr(0, k.find('-'));
-  return b == "C08" || b == "C09" || b == "C04c";
+  return b == "C08" || b == "C09" || b == "C04c" || b == "C10";
 }
 
 bool is_crash_kind(const std::string &k) {
   std::string b = k.substr(0, k.find('-'));
-  return b == "C02" || b == "C03" || b == "C04" || b == "C05" || b == "C12" || b == "C17";
+  return b == "C02" || b == "C03" || b == "C04" || b == "C05" || b == "C12" || b == "C17" || b == "C11";
 }
 
 }  // namespace
